@@ -1,4 +1,4 @@
-CONSTANTS MaxLen = 7  MaxByte = 4  MaxPasses = 2  Bug = ""
+CONSTANTS MaxLen = 7  MaxByte = 4  MaxPasses = 2  MaxDepth = 1  Bug = ""
 INIT Init
 NEXT Next
 INVARIANT Robust
